@@ -502,53 +502,124 @@ Section TokenBucket.
   Qed.
 End TokenBucket.
 
-Lemma tb_reach maxt initial progs sched :
-  0 <= maxt -> 0 <= initial ->
-  Forall (tb_inv (maxt * SCALE) (initial * SCALE))
-         (states (step (tb_prog (maxt * SCALE))) (init_state (tb_mem initial) progs) sched).
+Lemma tb_reach maxs init0 progs sched :
+  0 <= maxs -> 0 <= init0 ->
+  Forall (tb_inv maxs init0)
+         (states (step (tb_prog maxs)) (init_state (tb_mem0 init0) progs) sched).
 Proof.
   intros Hm Hi. apply reach_inv.
-  - apply inv_init. split; [|split]; cbn; [slia|slia|reflexivity].
-  - intros s e. apply tb_inv_step; slia.
+  - apply inv_init. split; [|split]; cbn; [lia|lia|reflexivity].
+  - intros s e. apply tb_inv_step; assumption.
 Qed.
 
-Lemma tb_conservation :
-  forall (maxt initial : Z) (progs : list (list tb_call)) (sched : list (nat * bool)),
-    0 <= maxt -> 0 <= initial ->
-    Forall (fun s =>
-              tb_grants s * SCALE + st_mem s LTok <= initial * SCALE + tb_deposits s * SCALE
-              /\ tb_grants s + st_mem s LTok / SCALE <= initial + tb_deposits s)
-           (states (step (tb_prog (maxt * SCALE))) (init_state (tb_mem initial) progs) sched).
+(* ---- step level: any (scaled) maximum and any (scaled) initial balance ---- *)
+Lemma tb_conservation_steps :
+  forall (maxs init0 : Z) (progs : list (list tb_call)) (sched : list (nat * bool)),
+    0 <= maxs -> 0 <= init0 ->
+    Forall (fun s => tb_grants s * SCALE + st_mem s LTok <= init0 + tb_deposits s * SCALE)
+           (states (step (tb_prog maxs)) (init_state (tb_mem0 init0) progs) sched).
 Proof.
-  intros maxt initial progs sched Hm Hi.
+  intros maxs init0 progs sched Hm Hi.
   eapply Forall_impl; [|apply tb_reach; assumption].
-  intros s [(Hb & Hc & _) _]. unfold tb_grants, tb_deposits. split; [exact Hc|].
-  assert (st_mem s LTok / SCALE <= initial + countz tb_is_deposit (st_log s) - countz tb_is_grant (st_log s)).
-  { apply Z.div_le_upper_bound; slia. }
-  lia.
+  intros s [(_ & Hc & _) _]. exact Hc.
 Qed.
 
-Lemma tb_balance_le_max :
-  forall (maxt initial : Z) (progs : list (list tb_call)) (sched : list (nat * bool)),
-    0 <= maxt -> 0 <= initial ->
-    Forall (fun s =>
-              0 <= st_mem s LTok <= Z.max initial maxt * SCALE
-              /\ 0 <= st_mem s LTok / SCALE <= Z.max initial maxt
-              /\ (initial <= maxt -> st_mem s LTok / SCALE <= maxt))
-           (states (step (tb_prog (maxt * SCALE))) (init_state (tb_mem initial) progs) sched).
+Lemma tb_balance_steps :
+  forall (maxs init0 : Z) (progs : list (list tb_call)) (sched : list (nat * bool)),
+    0 <= maxs -> 0 <= init0 ->
+    Forall (fun s => 0 <= st_mem s LTok <= Z.max init0 maxs
+                     /\ (init0 <= maxs -> st_mem s LTok <= maxs))
+           (states (step (tb_prog maxs)) (init_state (tb_mem0 init0) progs) sched).
 Proof.
-  intros maxt initial progs sched Hm Hi.
+  intros maxs init0 progs sched Hm Hi.
   eapply Forall_impl; [|apply tb_reach; assumption].
-  intros s [(Hb & _ & _) _].
-  assert (H1 : 0 <= st_mem s LTok <= Z.max initial maxt * SCALE) by slia.
-  assert (H2 : st_mem s LTok / SCALE <= Z.max initial maxt) by (apply Z.div_le_upper_bound; slia).
-  assert (H3 : 0 <= st_mem s LTok / SCALE) by (apply Z.div_pos; slia).
-  split; [exact H1|split; [lia|]]. intros. lia.
+  intros s [(Hb & _ & _) _]. split; [exact Hb|lia].
 Qed.
 
 (* linearizability: the completed operations, in the order of their completing step, are a
    sequential history with the same return values and the same balance, and that order
    respects real time (a response before another operation's first step) *)
+Lemma tb_linearizable_steps :
+  forall (maxs init0 : Z) (progs : list (list tb_call)) (sched : list (nat * bool)),
+    0 <= maxs -> 0 <= init0 ->
+    Forall (fun s =>
+              exists lin : list (orec tb_call),
+                Permutation lin (st_log s)
+                /\ (forall i j a b, nth_error lin i = Some a -> nth_error lin j = Some b ->
+                                    r_res a < r_first b -> (i < j)%nat)
+                /\ seq_run (tb_seq maxs) init0 (map r_call lin) = (map r_ret lin, st_mem s LTok))
+           (states (step (tb_prog maxs)) (init_state (tb_mem0 init0) progs) sched).
+Proof.
+  intros maxs init0 progs sched Hm Hi.
+  pose proof (Forall_and (tb_reach maxs init0 progs sched Hm Hi)
+                         (tinv_reach (tb_prog maxs) (tb_mem0 init0) progs sched)) as H.
+  eapply Forall_impl; [|exact H].
+  intros s [[(_ & _ & Hl) _] Ht]. exists (rev (st_log s)). split; [|split].
+  - apply Permutation_sym, Permutation_rev.
+  - apply realtime_order. exact Ht.
+  - exact Hl.
+Qed.
+
+(* ---- the constructor TokenBucketBudget::new: saturating scale, initial clamped to max ---- *)
+Lemma sat_mul_bounds a : 0 <= a -> 0 <= sat_mul a SCALE <= a * SCALE /\ sat_mul a SCALE <= U64MAX.
+Proof. intros H. unfold sat_mul, SCALE, U64MAX. lia. Qed.
+
+Lemma tb_new_facts maxt initial :
+  0 <= maxt -> 0 <= initial ->
+  0 <= tb_maxs maxt <= maxt * SCALE
+  /\ tb_maxs maxt <= U64MAX
+  /\ 0 <= tb_init maxt initial <= tb_maxs maxt
+  /\ tb_init maxt initial <= Z.min initial maxt * SCALE.
+Proof.
+  intros Hm Hi. unfold tb_init, tb_maxs.
+  pose proof (sat_mul_bounds maxt Hm). pose proof (sat_mul_bounds initial Hi). slia.
+Qed.
+
+(* the balance the constructor stores is exactly initial*1000 when that is representable and
+   below the maximum (ordinary configurations) *)
+Lemma tb_init_ordinary maxt initial :
+  0 <= initial <= maxt -> maxt * SCALE <= U64MAX ->
+  tb_maxs maxt = maxt * SCALE /\ tb_init maxt initial = initial * SCALE.
+Proof. intros H1 H2. unfold tb_init, tb_maxs, sat_mul. slia. Qed.
+
+Lemma tb_conservation :
+  forall (maxt initial : Z) (progs : list (list tb_call)) (sched : list (nat * bool)),
+    0 <= maxt -> 0 <= initial ->
+    Forall (fun s =>
+              tb_grants s * SCALE + st_mem s LTok <= tb_init maxt initial + tb_deposits s * SCALE
+              /\ tb_grants s + st_mem s LTok / SCALE <= Z.min initial maxt + tb_deposits s
+              /\ tb_grants s + st_mem s LTok / SCALE <= initial + tb_deposits s)
+           (states (step (tb_new_prog maxt)) (init_state (tb_new_mem maxt initial) progs) sched).
+Proof.
+  intros maxt initial progs sched Hm Hi.
+  destruct (tb_new_facts maxt initial Hm Hi) as (Hms & _ & Hin & Hle).
+  eapply Forall_impl; [|apply (tb_conservation_steps (tb_maxs maxt) (tb_init maxt initial)); lia].
+  cbn beta. intros s Hc. split; [exact Hc|].
+  assert (st_mem s LTok / SCALE
+          <= Z.min initial maxt + tb_deposits s - tb_grants s).
+  { apply Z.div_le_upper_bound; slia. }
+  lia.
+Qed.
+
+(* the balance NEVER exceeds the configured maximum, whatever initial_tokens was *)
+Lemma tb_balance_le_max :
+  forall (maxt initial : Z) (progs : list (list tb_call)) (sched : list (nat * bool)),
+    0 <= maxt -> 0 <= initial ->
+    Forall (fun s =>
+              0 <= st_mem s LTok <= tb_maxs maxt
+              /\ st_mem s LTok <= maxt * SCALE
+              /\ 0 <= st_mem s LTok / SCALE <= maxt)
+           (states (step (tb_new_prog maxt)) (init_state (tb_new_mem maxt initial) progs) sched).
+Proof.
+  intros maxt initial progs sched Hm Hi.
+  destruct (tb_new_facts maxt initial Hm Hi) as (Hms & _ & Hin & _).
+  eapply Forall_impl; [|apply (tb_balance_steps (tb_maxs maxt) (tb_init maxt initial)); lia].
+  cbn beta. intros s [Hb Hc]. specialize (Hc (proj2 Hin)).
+  assert (H2 : st_mem s LTok / SCALE <= maxt) by (apply Z.div_le_upper_bound; slia).
+  assert (H3 : 0 <= st_mem s LTok / SCALE) by (apply Z.div_pos; slia).
+  lia.
+Qed.
+
 Lemma tb_linearizable :
   forall (maxt initial : Z) (progs : list (list tb_call)) (sched : list (nat * bool)),
     0 <= maxt -> 0 <= initial ->
@@ -557,18 +628,13 @@ Lemma tb_linearizable :
                 Permutation lin (st_log s)
                 /\ (forall i j a b, nth_error lin i = Some a -> nth_error lin j = Some b ->
                                     r_res a < r_first b -> (i < j)%nat)
-                /\ seq_run (tb_seq (maxt * SCALE)) (initial * SCALE) (map r_call lin)
+                /\ seq_run (tb_seq (tb_maxs maxt)) (tb_init maxt initial) (map r_call lin)
                    = (map r_ret lin, st_mem s LTok))
-           (states (step (tb_prog (maxt * SCALE))) (init_state (tb_mem initial) progs) sched).
+           (states (step (tb_new_prog maxt)) (init_state (tb_new_mem maxt initial) progs) sched).
 Proof.
   intros maxt initial progs sched Hm Hi.
-  pose proof (Forall_and (tb_reach maxt initial progs sched Hm Hi)
-                         (tinv_reach (tb_prog (maxt * SCALE)) (tb_mem initial) progs sched)) as H.
-  eapply Forall_impl; [|exact H].
-  intros s [[(_ & _ & Hl) _] Ht]. exists (rev (st_log s)). split; [|split].
-  - apply Permutation_sym, Permutation_rev.
-  - apply realtime_order. exact Ht.
-  - exact Hl.
+  destruct (tb_new_facts maxt initial Hm Hi) as (Hms & _ & Hin & _).
+  apply (tb_linearizable_steps (tb_maxs maxt) (tb_init maxt initial)); lia.
 Qed.
 
 (* ------------------------------------------------------------------------- *)
@@ -789,12 +855,13 @@ Proof.
   intros s [(_ & Hl & _) _]. exact Hl.
 Qed.
 
-(* per thread: completed operations ++ operation in progress ++ calls not begun = its program *)
+(* per thread: completed operations ++ operation in progress ++ calls not begun = its program
+   (any program of the machine, any initial memory) *)
 Lemma tb_program_order :
-  forall (maxt initial : Z) (progs : list (list tb_call)) (sched : list (nat * bool)),
+  forall (maxs : Z) (m0 : mem) (progs : list (list tb_call)) (sched : list (nat * bool)),
     Forall (fun s => forall tid t, nth_error (st_thr s) tid = Some t ->
                        done_calls tid (st_log s) ++ cur_calls t ++ th_calls t = nth tid progs [])
-           (states (step (tb_prog (maxt * SCALE))) (init_state (tb_mem initial) progs) sched).
+           (states (step (tb_prog maxs)) (init_state m0 progs) sched).
 Proof. intros. apply hinv_reach. Qed.
 
 (* ------------------------------------------------------------------------- *)
@@ -835,6 +902,22 @@ Example aimd_budget_run :
                      (init_state (ab_mem b) [[AbDeposit]; [AbWithdraw; AbWithdraw; AbWithdraw; AbWithdraw; AbWithdraw]]) in
   (st_mem s LTok, st_mem s LLim, ab_grants s, ab_deposits s) = (1, 3, 4, 1).
 Proof. vm_compute. reflexivity. Qed.
+
+(* the constructor clamps and saturates (reachable hypotheses of the constructor-level
+   theorems: initial > max, and sizes beyond 2^64 / 1000) *)
+Example constructor_clamps :
+  (tb_init 2 5, tb_maxs 2, tb_init 18446744073709552 18446744073709552, tb_maxs U64MAX,
+   tb_init 7 U64MAX)
+  = (2000, 2000, U64MAX, U64MAX, 7000).
+Proof. vm_compute. reflexivity. Qed.
+
+(* before /repo a863e6a the balance started at initial*1000 > max*1000 and the first deposit
+   LOWERED it to the maximum: with the unclamped start the cap fails in the initial state *)
+Example unclamped_start_refuted :
+  let s := init_state (PC := tb_pc) (tb_mem 5) [[TbDeposit]] in
+  ~ (st_mem s LTok <= 2 * SCALE)
+  /\ st_mem (fold_left (step (tb_prog (2 * SCALE))) [(0, false); (0, false)]%nat s) LTok = 2 * SCALE.
+Proof. vm_compute. split; [intros H; apply H; reflexivity|reflexivity]. Qed.
 
 (* the script interface on the defect-shaped corpus entry *)
 Example script_example :
